@@ -55,13 +55,12 @@ theorem mem_upd' {id : Nat} {f : RTable → RTable} {ts : List RTable} {t' : RTa
 /-- well-formedness after updating the one table `t0` with id `id` -/
 theorem WF.upd {r : Reg} (hwf : WF r) {id : Nat} {t0 : RTable} (ht0 : t0 ∈ r.tables) (hid0 : t0.id = id)
     (a : Int) (rq : Option Int) (r' : Reg)
-    (hmax : r'.max = r.max) (hmin : r'.min = r.min) (htc : r'.tableCount = r.tableCount)
+    (hmax : r'.max = r.max) (_hmin : r'.min = r.min) (htc : r'.tableCount = r.tableCount)
     (hnext : r'.nextId = r.nextId) (htab : r'.tables = upd id (adj a rq) r.tables)
     (hb : 0 ≤ (adj a rq t0).count ∧ 0 ≤ (adj a rq t0).required ∧
           (adj a rq t0).count + (adj a rq t0).required ≤ r.max) : WF r' := by
   constructor
-  · rw [hmin]; exact hwf.min2
-  · rw [hmin, hmax]; exact hwf.minmax
+  · rw [hmax]; exact hwf.maxpos
   · rw [htc, htab, upd_length]; exact hwf.tc
   · rw [htab, upd_ids _ _ _ (adj_id a rq)]; exact hwf.nodup
   · intro t' ht'
@@ -133,8 +132,7 @@ theorem breakTable_spec {r : Reg} (hwf : WF r) {id : Nat} {t0 : RTable} (ht0 : t
   obtain ⟨h1, h2⟩ := tv_filter_spec (tview r.tables) id t0.count (by rw [tview_fst]; exact hwf.nodup) hmem
   refine ⟨?_, ?_, ?_⟩
   · constructor
-    · exact hwf.min2
-    · exact hwf.minmax
+    · exact hwf.maxpos
     · simp only [breakTable]
       have : (r.tables.filter (fun t => t.id != id)).length = ((tview r.tables).filter (fun e => e.1 != id)).length := by
         rw [← tview_filter]; simp [tview]
@@ -387,7 +385,7 @@ theorem syncState_spec (r : Reg) (id : Nat) (out : Int) (t0 : RTable) (hwf : WF 
   rw [syncState_eq, hf]
   simp only
   generalize syncBase r id out = b at *
-  have hmaxpos : 0 < b.max := by have := bwf.min2; have := bwf.minmax; omega
+  have hmaxpos : 0 < b.max := bwf.maxpos
   rw [← htc]
   generalize adj (-out) none t0 = tb at *
   split
